@@ -49,6 +49,14 @@ pub fn issue_creds(ctx: &mut Ctx, n: usize, tag: u64) -> Vec<Cred> {
     // given a handful of lists each
     let lite: Vec<Flow> = specials.iter().filter(|f| !f.sel.is_empty() && depth_of(&f.issue.claims) < 12).enumerate()
         .filter(|(k, f)| matches!(f.issue.strategy, Strategy::Custom(_)) || (matches!(f.issue.strategy, Strategy::All) && k % 3 == 0)).map(|(_, f)| f.clone()).collect();
+    let mut lite = lite;
+    {
+        // values of 6 to 30 KB (a disclosure text longer than any "reasonable" bound)
+        let claims = json!({"iss": "https://issuer.example", "exp": now() + 100000, "portrait": "P".repeat(6300), "doc": {"scan": "S".repeat(700), "page": 1}, "small": "s", "list": ["L".repeat(6200), "x"]});
+        for st in [Strategy::Top, Strategy::All] {
+            lite.push(Flow { issue: IssueArgs { claims: claims.clone(), strategy: st, holder: None, decoy: false, fmt: Fmt::Compact, key: KeyId::IssuerEc, alg: None, queue: None }, sel: select_all(&claims).as_object().cloned().unwrap_or_default(), kb: None });
+        }
+    }
     for i in 0..n + lite.len() {
         let mut r = ctx.rng.fork(tag + i as u64);
         let mut f = if i >= n { lite[i - n].clone() } else { gen_flow(&mut r, &cfg) };
@@ -309,7 +317,15 @@ fn garbage(r: &mut Rng) -> (&'static str, String) {
     let nonb64 = ["!!!", "not base64", "%%%", "a", "A", "=", "ÿ", "e30=", "W10.", " ", "\"", "\\u0000", "{}", "Zm9v\n"];
     let nonjson = ["not json", "{", "[1,2", "[\"s\",\"n\",", "\u{0}", "['s','n','v']", "[\"s\",\"n\",\"v\"] trailing", ""];
     let odd_json = ["{\"a\":1}", "\"str\"", "7", "null", "[]", "[\"only-salt\"]", "[\"s\",\"n\",\"v\",\"extra\"]", "[\"s\",\"n\",\"v\",\"e\",\"f\"]", "[1,2,3]", "[\"s\",7,\"v\"]", "[[\"s\",\"n\",\"v\"]]"];
-    match r.below(4) {
+    match r.below(5) {
+        4 => {
+            // a disclosure text cut at a byte offset (inside a string, inside a multi-byte character); and the empty array in spellings
+            let text = "[\"c2FsdC10cnVuYw\",\"n\u{e9}\u{20ac}me\",{\"v\":\"\u{1f600}\u{4e2d}\u{e9} text\",\"w\":[\"\u{20ac}\u{20ac}\",1]}]";
+            match r.below(4) {
+                0 => ("garbage-empty-array", b64(r.pick(&["[]", "[ ]", "[  ]", "\n[\n]\n", "[[]]", "[null]", "[\"\"]"]).as_bytes())),
+                _ => ("garbage-cut-at-a-byte-offset", b64(&text.as_bytes()[..r.range(1, text.len())])),
+            }
+        }
         3 => {
             // long and full of multi-byte characters (raw, or as the content of base64url text that is not a disclosure)
             let f = r.pick(&multibyte_fillers()).clone();
